@@ -36,10 +36,14 @@ func init() {
 
 type stagePlugin struct {
 	acceptVeto, postRead, preCall bool
+	rec                           *reqRecorder // when set: remembers the request every front end hands to the post-read stage
 }
 
 func (p *stagePlugin) HandleConnAccept(c net.Conn) (net.Conn, bool) { return c, !p.acceptVeto }
 func (p *stagePlugin) PostReadRequest(ctx context.Context, r *protocol.Message, e error) error {
+	if p.rec != nil && r != nil {
+		p.rec.note(r)
+	}
 	if p.postRead {
 		return errors.New("rejected by the post-read plugin")
 	}
@@ -77,10 +81,11 @@ type tcpRig struct {
 	h    *handlerEnv
 	addr string
 	done chan error
+	rec  *reqRecorder
 }
 
 func newTCPRig(acceptVeto, postRead, auth, preCall bool) (*tcpRig, error) {
-	rg := &tcpRig{h: newHandlerEnv(false), done: make(chan error, 1)}
+	rg := &tcpRig{h: newHandlerEnv(false), done: make(chan error, 1), rec: &reqRecorder{}}
 	s := server.NewServer()
 	rg.srv = s
 	s.RegisterName("Arith", &Arith{h: rg.h}, "")
@@ -97,9 +102,9 @@ func newTCPRig(acceptVeto, postRead, auth, preCall bool) (*tcpRig, error) {
 	s.RegisterName("Raw", &RawSvc{h: rg.h}, "")
 	// the rejecting plugin stands between two plugins that accept everything: a stage's verdict is a
 	// rejection as soon as one of its plugins rejects, wherever it is registered
-	s.Plugins.Add(&stagePlugin{})
+	s.Plugins.Add(&stagePlugin{rec: rg.rec})
 	if acceptVeto || postRead || preCall {
-		s.Plugins.Add(&stagePlugin{acceptVeto, postRead, preCall})
+		s.Plugins.Add(&stagePlugin{acceptVeto: acceptVeto, postRead: postRead, preCall: preCall})
 	}
 	s.Plugins.Add(&stagePlugin{})
 	if auth {
@@ -558,6 +563,10 @@ func runIngress(prop string, r *common.Rand, tier string, o *common.Out, replay 
 		o.Count("ingress=" + q.ing)
 		return res
 	}
+	if replay != "" && (strings.HasPrefix(replay, "conv ") || strings.HasPrefix(replay, "gw ") || strings.HasPrefix(replay, "jr ")) {
+		replayFront(o, getRig([4]bool{}), replay)
+		return
+	}
 	if replay != "" {
 		p := strings.Split(replay, "|")
 		cfg := [4]bool{p[0][0] == '1', p[0][1] == '1', p[0][2] == '1', p[0][3] == '1'}
@@ -618,6 +627,7 @@ func runIngress(prop string, r *common.Rand, tier string, o *common.Out, replay 
 	}
 	runOne(next(), open, ingReq{ing: "jsonrpc", token: "good", path: "Arith", method: "Mul", id: id, a: 2, b: 3, mode: "ok", malformed: "nodot"})
 	if prop == "C19" {
+		runFrontEnds(r, tier, o, getRig(open), next)
 		// equivalence: the same request through three fresh connections
 		n := 120
 		if tier == "thorough" {
